@@ -217,6 +217,23 @@ def run(ck, m):
         if isinstance(s, ast.FunctionDef) and s.name in ("draw_screen", "flush", "get_available_raw_input", "write"):
             ck.ob("R6", s, any((dotted(d) or "") == "lock_tty" for d in s.decorator_list), f"UrwidImageScreen.{s.name} must be decorated with lock_tty", stmt=f"UrwidImageScreen.{s.name}: @lock_tty")
 
+    # the widget's own z-index / blend / split_cells must end up in the style args used for rendering, whatever the format spec says
+    ini_w = m.get(W, "UrwidImage.__init__")
+    sa = [st for t, st in stores_in(ast.Module(body=ini_w.body, type_ignores=[])) if norm(t) == "self._ti_style_args"]
+    ck.expect(len(sa) == 1, "UrwidImage.__init__: store of self._ti_style_args not found")
+    if len(sa) == 1:
+        v = sa[0].value
+        if isinstance(v, ast.Dict):
+            # {**a, **b}: later entries win - the format specifier's dict must come first
+            srcs = [norm(x) for k_, x in zip(v.keys, v.values) if k_ is None]
+            spec_i = [i for i, x in enumerate(srcs) if x == "style_args"]
+            ck.ob("R4", sa[0], bool(spec_i) and spec_i[0] == 0, f"self._ti_style_args = {norm(v)[:70]}: the arguments parsed from the format specifier must not override the widget's own (z_index is allocated per widget; a `z` field "
+                  "in the specifier is documented as ignored) - with another z the delete-by-z-index commands miss the placements", stmt="UrwidImage.__init__: widget-owned style args take precedence")
+        else:
+            zs = [st for t, st in stores_in(ast.Module(body=ini_w.body, type_ignores=[])) if isinstance(t, ast.Subscript) and norm(t.slice) == "'z_index'"]
+            ck.ob("R4", sa[0], norm(v) == "style_args" and len(zs) == 1 and norm(zs[0].targets[0].value) == "style_args" and zs[0].lineno > sa[0].lineno or (len(zs) == 1 and norm(zs[0].targets[0].value) in ("style_args", "self._ti_style_args")),
+                  "the widget's z-index must be written into the very dict used as self._ti_style_args (after the format specifier was parsed)", stmt="UrwidImage.__init__: widget-owned style args take precedence")
+
     from rules.common import rule_memo_safety
     rule_memo_safety(ck, m, "MEMO", "C18")
 
